@@ -532,6 +532,19 @@ example : readUvarint (appendUvarint 4613 ++ [48, 130]) = .ok (4613, [48, 130]) 
 
 /-! ### Deepening round 2: did:x509 (vdr/didx509) — the document is bound to the identifier AND to the presented chain -/
 
+/-- the did:x509 tables and orders the model relies on, as regenerated from vdr/didx509: the validatorMap rows (policy, key,
+    how the function literal compares `value` with which certificate attribute) ARE the model's table; the policy names
+    that reach `validate` and the refusing default; the hash switch (after `strings.ToLower`); the thumbprint headers with
+    their algorithms; the order of the calls of `Resolve` -/
+theorem fact_x509_tables :
+    tableOfFacts Facts.C18.x509ValidatorRows = some xValidatorTable ∧ Facts.C18.x509PolicyKeyCount = 12 ∧
+    Facts.C18.x509PolicyNames = ["subject", "san"] ∧ Facts.C18.x509PolicyDefault = "err=ErrUnkPolicyType;" ∧
+    Facts.C18.x509HashAlgsB = hashAlgs ∧ Facts.C18.x509HashLowered = true ∧
+    Facts.C18.x509ThumbprintHeaders = [("x5t", "hashHeader", "sha1"), ("x5t#S256", "hash256Header", "sha256")] ∧
+    Facts.C18.x509ResolveOrder = ["parseX509Did(id)", "metadata.GetProtectedHeaderChain(X509CertChainHeader)", "parseChain(chainHeader)",
+      "findCertificateByHash(chain,ref.RootCertRef,ref.Method)", "findValidationCertificate(metadata,chain)",
+      "validatePolicy(ref,validationCert)", "r.pkiValidator.CheckCRLStrict(chain)", "createDidDocument(id,validationCert)"] := by decide
+
 /-- **The parsed reference is the identifier** (`parseX509Did`, every text): an accepted identifier is exactly
     `0:<alg>:<root>` followed by `::<name>:<value>` per policy — nothing of the text is dropped or reordered —
     hence two identifiers with the same reference are the same identifier. -/
